@@ -501,7 +501,7 @@ def focus_module(rng):
 # ---------------------------------------------------------------------------------- witnesses of the findings proposed for C13
 WITNESSES = {
     "F172": {"module": "W DEFINITIONS AUTOMATIC TAGS ::= BEGIN U ::= INTEGER (0..MAX) END", "type": "U", "op": "enc uper (int 9223372036854775808)",
-             "options_a": list(BASE), "options_b": list(BASE) + [WIDE], "expect_a": "ok 09008000000000000000", "expect_b": "fail EBADF U buffer-not-null"},
+             "options_a": list(BASE), "options_b": list(BASE) + [WIDE], "expect_a": "ok 088000000000000000", "expect_b": "fail EBADF U"},
     "F173": {"module": "W DEFINITIONS AUTOMATIC TAGS ::= BEGIN U ::= INTEGER (0..MAX) END", "type": "U", "op": "enc cxer (int 9223372036854775808)",
              "options_a": list(BASE), "options_b": list(BASE) + [WIDE], "expect_a": "ok " + b"<U>9223372036854775808</U>".hex(),
              "expect_b": "ok " + b"<U>00:80:00:00:00:00:00:00:00</U>".hex()},
@@ -594,8 +594,11 @@ def k_lines(ctx):
         for w, p in OERS:
             a = add(f"n_oer s {w} {p} {v}"); pairs.append((a, add(f"w_oer {w} {p} {mo}"), "oer"))
             if u_ok: a = add(f"n_oer u {w} {p} {v}"); pairs.append((a, add(f"w_oer {w} {p} {mo}"), "oer-unsigned"))
+        fill = "ff" if v < 0 else "00"
         for ct in CTS:
             a = add(f"n_uper s {ct} {v}"); pairs.append((a, add(f"w_uper s {ct} {mo}"), "uper"))
+            # redundant leading octets of the wide value must not reach the wire (finding F18 repaired)
+            pairs.append((a, add(f"w_uper s {ct} {fill + mo}"), "uper-padded")); pairs.append((a, add(f"w_uper s {ct} {fill * 3 + mo}"), "uper-padded"))
             lb = int(ct.split(",")[3]) if ct != "-" else 0
             if u_ok and lb >= 0:
                 a = add(f"n_uper u {ct} {v}"); pairs.append((a, add(f"w_uper s {ct} {mo}"), "uper-unsigned"))
